@@ -55,6 +55,12 @@ Theorem c07_seamless_target : C07_seamless_target_full.
 Proof. exact c07_seamless_target_full_proof. Qed.
 Print Assumptions c07_seamless_target.
 
+(* the hypothesis on the cursor LIB cannot simply be dropped: a malformed cursor (LIB reference with a wrong number) breaks the
+   discipline in the model *)
+Theorem c07_target_cursor_lib_needed : C07_target_cursor_lib_needed.
+Proof. exact c07_target_cursor_lib_needed_proof. Qed.
+Print Assumptions c07_target_cursor_lib_needed.
+
 (* BEFORE that fix (stream_run_tnum, Spec/C07_TargetUnfixed_Spec.v) target-cursor mode joined the hub by block NUMBER when
    the cursor was below the file block: with every hypothesis of c07_seamless_target_nu_partial the hub on a fork at the
    join height broke the discipline - found by this proof, reproduced on the real code, repaired *)
@@ -308,8 +314,6 @@ Qed.
    13 <- 114 <- 115 (head 115, the canonical 14 stored off the chain), then 15..20; target cursor {New 14, LIB 12}; the files hold
    2..9.  target_on_chain fails; every hypothesis of c07_seamless_target holds.  The join at 8 is answered with the cursor's
    own branch 8..14, then Undo 14, New 114, New 115; later the hub reorganises back *)
-Definition off_w : world :=
-  mkW (hub_run 2 5 hub_init []) (map na_b [6;7;8;9;10;11;12;13;14] ++ [na_f14; na_f15] ++ map na_b [15;16;17;18;19;20]).
 Definition off_cu : cursor := mkCursor SNew (mkR 14 14) (mkR 14 14) (mkR 12 12).
 Definition off_c : jcfg := mkJ 2 5 10 2 5 (Some off_cu) 0 0 0.
 Example c07_target_off_chain_nonvacuous :
